@@ -24,6 +24,18 @@ _PUB_PUBLISH_GATE = (
     "        # serverlist computed by that process instead of computing our own.\n"
     "        if self._servermap:\n")
 
+NMF = "src/allmydata/nodemaker.py"
+_UNPACK_HEAD = ("        writeable = not self.is_readonly()\n        mutable = self.is_mutable()\n"
+                "        children = AuxValueDict()\n")
+_UNPACK_TAIL = "                               facility=\"tahoe.webish\", level=log.UNUSUAL)\n\n        return children\n"
+CLF = "src/allmydata/client.py"
+_CL_ENTRY = "        return self.nodemaker.create_from_cap(write_uri, read_uri, deep_immutable=deep_immutable, name=name)\n"
+_CL_INIT = "        self.nodemaker = NodeMaker(self.storage_broker,\n"
+_NM_INIT = "        self._node_cache = weakref.WeakValueDictionary() # uri -> node\n"
+_NM_STORE = "                self._node_cache[memokey] = node  # note: WeakValueDictionary\n"
+_NM_MISS_TAIL = "\n            # node is None for an unknown URI, otherwise it is a type for which\n"
+_NM_MISS = "            node = self._create_from_single_cap(cap)\n" + _NM_MISS_TAIL
+
 MUTANTS = [
     # ---- C41.1 node-level gates
     M("publish-update-no-writekey-assert", PUBF, _PUB_UPDATE_GATE,
@@ -227,6 +239,136 @@ MUTANTS = [
     M("vanish-unpack-contents", DIRF,
       "    def _unpack_contents(self, data):", "    def _unpack_contentsX(self, data):", "ANALYSIS-ERROR"),
     # ---- C41.7 (node-cache key, shared with C18.5; added after seeded change C41-B)
-    M("cache-keyed-by-readcap-first", "src/allmydata/nodemaker.py",
+    M("cache-keyed-by-readcap-first", NMF,
       "        bigcap = writecap or readcap\n", "        bigcap = readcap or writecap\n", "C41.7"),
+    # ---- C41.7.11 (= C18.11, adopted after seeded change C41-H): what _unpack_contents hands out was unpacked by
+    # this node, or remembered under a key that names the node's writeability
+    M("unpack-memo-keyed-by-contents", DIRF, _UNPACK_HEAD,
+      "        cachekey = (self.get_storage_index(), hashutil.tagged_hash(b\"unpack-memo\", data))\n"
+      "        cached = _unpack_memo.get(cachekey)\n"
+      "        if cached is not None:\n"
+      "            return cached\n" + _UNPACK_HEAD, "C41.7.11",
+      edits=[(DIRF, "ZERO_LEN_NETSTR=netstring(b'')\n", "ZERO_LEN_NETSTR=netstring(b'')\n_unpack_memo = {}\n"),
+             (DIRF, _UNPACK_TAIL, _UNPACK_TAIL.replace("        return children\n",
+                                                       "        _unpack_memo[cachekey] = children\n        return children\n"))],
+      note="seeded C41-H: children unpacked through the write cap (decrypted rw_uri) are served to a read-only node"),
+    M("unpack-memo-on-backing-node", DIRF, _UNPACK_HEAD,
+      "        last = getattr(self._node, \"_last_unpacked\", None)\n"
+      "        if last is not None and last[0] == data:\n"
+      "            return last[1]\n" + _UNPACK_HEAD, "C41.7.11",
+      edits=[(DIRF, _UNPACK_TAIL, _UNPACK_TAIL.replace("        return children\n",
+                                                       "        self._node._last_unpacked = (data, children)\n        return children\n"))],
+      note="the memo rides on the backing file node, which C41.9 lets the nodemaker share only between equal caps - but "
+           "here it is read without asking: caught as 'attribute of the node'"),
+    M("benign-unpack-memo-keyed-by-writeability", DIRF, _UNPACK_HEAD,
+      "        writeable = not self.is_readonly()\n"
+      "        cachekey = (self.get_storage_index(), writeable, hashutil.tagged_hash(b\"unpack-memo\", data))\n"
+      "        cached = _unpack_memo.get(cachekey)\n"
+      "        if cached is not None:\n"
+      "            return cached\n"
+      "        mutable = self.is_mutable()\n        children = AuxValueDict()\n", None,
+      edits=[(DIRF, "ZERO_LEN_NETSTR=netstring(b'')\n", "ZERO_LEN_NETSTR=netstring(b'')\n_unpack_memo = {}\n"),
+             (DIRF, _UNPACK_TAIL, _UNPACK_TAIL.replace("        return children\n",
+                                                       "        _unpack_memo[cachekey] = children\n        return children\n"))]),
+    # ---- C41.9 (added after seeded change C41-G): the node answered for a cap was made from that cap
+    M("slot-cache-keyed-by-verifycap", NMF, _NM_MISS,
+      "            slotkey = self._slot_key(cap)\n"
+      "            node = self._slot_cache.get(slotkey)\n"
+      "            if node is None:\n"
+      "                node = self._create_from_single_cap(cap)\n" + _NM_MISS_TAIL, "C41.9",
+      edits=[(NMF, _NM_INIT, _NM_INIT + "        self._slot_cache = weakref.WeakValueDictionary()\n"),
+             (NMF, _NM_STORE, _NM_STORE + "                if slotkey is not None:\n"
+                                          "                    self._slot_cache[slotkey] = node\n"),
+             (NMF, "    def _create_from_single_cap(self, cap):\n",
+              "    def _slot_key(self, cap):\n        verifycap = cap.get_verify_cap()\n"
+              "        if verifycap is None:\n            return None\n        return verifycap.to_string()\n\n"
+              "    def _create_from_single_cap(self, cap):\n")],
+      note="seeded C41-G: one live node per slot, so a read-only / verify cap is answered with the writeable node"),
+    M("mutable-nodes-shared-by-storage-index", NMF,
+      "        return n.init_from_cap(cap)\n",
+      "        live = _LIVE_MUTABLE.get(cap.get_storage_index())\n"
+      "        if live is not None:\n            return live\n"
+      "        node = n.init_from_cap(cap)\n"
+      "        _LIVE_MUTABLE[cap.get_storage_index()] = node\n        return node\n", "C41.9",
+      edits=[(NMF, "@implementer(INodeMaker)\nclass NodeMaker:",
+              "_LIVE_MUTABLE = weakref.WeakValueDictionary()\n\n@implementer(INodeMaker)\nclass NodeMaker:")],
+      note="same effect one level down, in a module-level index behind _create_from_single_cap"),
+    M("dirnodes-shared-by-filenode-slot", NMF,
+      "    def _create_dirnode(self, filenode):\n        return DirectoryNode(filenode, self, self.uploader)\n",
+      "    def _create_dirnode(self, filenode):\n        si = filenode.get_storage_index()\n"
+      "        dirnode = self._dirnodes.get(si)\n        if dirnode is None:\n"
+      "            dirnode = self._dirnodes[si] = DirectoryNode(filenode, self, self.uploader)\n"
+      "        return dirnode\n", "C41.9",
+      edits=[(NMF, _NM_INIT, _NM_INIT + "        self._dirnodes = weakref.WeakValueDictionary()\n")]),
+    M("class-level-node-index", NMF,
+      "        return n.init_from_cap(cap)\n",
+      "        node = NodeMaker._live.get(cap.storage_index)\n"
+      "        if node is None:\n"
+      "            node = NodeMaker._live[cap.storage_index] = n.init_from_cap(cap)\n        return node\n", "C41.9",
+      edits=[(NMF, "@implementer(INodeMaker)\nclass NodeMaker:\n",
+              "@implementer(INodeMaker)\nclass NodeMaker:\n    _live = weakref.WeakValueDictionary()\n")]),
+    M("writeable-node-filed-under-readcap-too", NMF,
+      "        return n.init_from_cap(cap)\n",
+      "        node = n.init_from_cap(cap)\n"
+      "        self._node_cache[b\"M\" + node.get_readonly_uri()] = node\n        return node\n", "C41.9",
+      note="another filler of the memo create_from_cap answers from: the writeable node is pre-filed under its read cap"),
+    M("gateway-entry-remembers-by-either-cap", CLF, _CL_ENTRY,
+      "        key = read_uri or write_uri\n"
+      "        node = self._recent_nodes.get(key)\n"
+      "        if node is None:\n"
+      "            node = self._recent_nodes[key] = self.nodemaker.create_from_cap(\n"
+      "                write_uri, read_uri, deep_immutable=deep_immutable, name=name)\n"
+      "        return node\n", "C41.9",
+      edits=[(CLF, _CL_INIT, "        self._recent_nodes = weakref.WeakValueDictionary()\n" + _CL_INIT)],
+      note="sibling site, the gateway's own entry point: the node made for (write cap, read cap) is found by (None, read cap)"),
+    M("gateway-entry-drops-write-slot-order", CLF, _CL_ENTRY,
+      "        return self.nodemaker.create_from_cap(read_uri, write_uri, deep_immutable=deep_immutable, name=name)\n",
+      "C41.9"),
+    M("node-cache-second-index-by-readcap-first", NMF,
+      "            node = self._node_cache[memokey]\n",
+      "            node = self._by_readcap.get(readcap or writecap) or self._node_cache[memokey]\n", "C41.9",
+      edits=[(NMF, _NM_INIT, _NM_INIT + "        self._by_readcap = weakref.WeakValueDictionary()\n"),
+             (NMF, _NM_STORE, _NM_STORE + "                self._by_readcap[readcap or writecap] = node\n")],
+      note="a key made of the given strings that still does not determine `writecap or readcap`"),
+    M("benign-gateway-entry-remembers-by-both-slots", CLF, _CL_ENTRY,
+      "        key = (write_uri, read_uri, deep_immutable)\n"
+      "        node = self._recent_nodes.get(key)\n"
+      "        if node is None:\n"
+      "            node = self._recent_nodes[key] = self.nodemaker.create_from_cap(\n"
+      "                write_uri, read_uri, deep_immutable=deep_immutable, name=name)\n"
+      "        return node\n", None,
+      edits=[(CLF, _CL_INIT, "        self._recent_nodes = weakref.WeakValueDictionary()\n" + _CL_INIT)]),
+    M("benign-gateway-entry-via-local", CLF, _CL_ENTRY,
+      "        nodemaker = self.nodemaker\n"
+      "        node = nodemaker.create_from_cap(write_uri, read_uri, deep_immutable=deep_immutable, name=name)\n"
+      "        return node\n", None),
+    M("benign-cache-lookup-with-get", NMF,
+      "        try:\n            node = self._node_cache[memokey]\n        except KeyError:\n",
+      "        node = self._node_cache.get(memokey)\n        if node is None:\n", None),
+    M("benign-second-cache-keyed-by-full-cap", NMF,
+      "            node = self._node_cache[memokey]\n",
+      "            node = self._recent.get(memokey) or self._node_cache[memokey]\n", None,
+      edits=[(NMF, _NM_INIT, _NM_INIT + "        self._recent = {}\n"),
+             (NMF, _NM_STORE, _NM_STORE + "                self._recent[memokey] = node\n")]),
+    M("benign-slot-cache-keyed-by-cap-class-too", NMF, _NM_MISS,
+      "            slotkey = (cap.__class__, cap.get_verify_cap())\n"
+      "            node = self._slot_cache.get(slotkey)\n"
+      "            if node is None:\n"
+      "                node = self._create_from_single_cap(cap)\n" + _NM_MISS_TAIL, None,
+      edits=[(NMF, _NM_INIT, _NM_INIT + "        self._slot_cache = weakref.WeakValueDictionary()\n"),
+             (NMF, _NM_STORE, _NM_STORE + "                self._slot_cache[slotkey] = node\n")],
+      note="the seeded second index, but partitioned by the class of the cap (write / read / verify caps of a slot are "
+           "different classes): nodes are shared only between caps of equal authority"),
+    M("benign-store-through-helper", NMF, _NM_STORE, "                self._remember(memokey, node)\n", None,
+      edits=[(NMF, "    def _create_from_single_cap(self, cap):\n",
+              "    def _remember(self, key, node):\n        self._node_cache[key] = node\n\n"
+              "    def _create_from_single_cap(self, cap):\n")]),
+    M("benign-dirnode-steps-hoisted", NMF,
+      "            filenode = self._create_from_single_cap(cap.get_filenode_cap())\n"
+      "            return self._create_dirnode(filenode)\n",
+      "            filenode_cap = cap.get_filenode_cap()\n"
+      "            backing = self._create_from_single_cap(filenode_cap)\n"
+      "            dirnode = self._create_dirnode(backing)\n            return dirnode\n", None),
+    M("benign-mutable-node-via-local", NMF,
+      "        return n.init_from_cap(cap)\n", "        node = n.init_from_cap(cap)\n        return node\n", None),
 ]
